@@ -1377,3 +1377,161 @@ Proof.
   - intros k. unfold T. rewrite pview_empty. rewrite dump_lookup; auto.
     cbn [kfind]. destruct (FRESH R k); auto.
 Qed.
+
+(* ------------------------------------------------------------ the invariant *)
+Notation STEP := (step E ByNet false max aptx vis pol).
+
+Definition basef (n : nbr E) : key -> option E :=
+  fun k => kfind k (mirror_reach E (n_buf n) (n_mirror n)).
+
+Definition nbr_ok (R : rib) (n : nbr E) : Prop :=
+  exists L, wf L /\ Chain L (n_chan n) R /\ emap_ok L (n_emap n) /\
+            pend_ok L (n_ptx n) (basef n) /\ coherent E (n_ptx n).
+
+(* T1: the invariant linking the RIB, the undelivered changes, the ExportMap, the pending
+   sets and the mirror *)
+Definition Inv (s : state E) : Prop :=
+  wf (s_rib s) /\ s_llgr s = [] /\ (n_reg (s_nbr s) = true -> nbr_ok (s_rib s) (s_nbr s)).
+
+Lemma push_reg : forall c n, n_reg (push E c n) = n_reg n.
+Proof. intros c n. unfold push. destruct (n_reg n) eqn:H; auto. Qed.
+
+Lemma nbr_ok_emit : forall R c R' n, n_reg n = true -> nbr_ok R n -> emit R c R' -> nbr_ok R' (push E c n).
+Proof.
+  intros R c R' n Hr [L [H1 [H2 [H3 [H4 H5]]]]] He. unfold push. rewrite Hr.
+  exists L. cbn [n_chan n_emap n_ptx]. split; [|split; [|split; [|split]]]; auto.
+  eapply chain_snoc_emit; eauto.
+Qed.
+
+Lemma nbr_ok_silent : forall R R' n, nbr_ok R n -> silent R R' -> nbr_ok R' n.
+Proof.
+  intros R R' n [L [H1 [H2 [H3 [H4 H5]]]]] Hs. exists L. split; [|split; [|split; [|split]]]; auto.
+  eapply chain_snoc_silent; eauto.
+Qed.
+
+Lemma NoDup_map_inj : forall {A B} (f : A -> B) l a b,
+  NoDup (map f l) -> In a l -> In b l -> f a = f b -> a = b.
+Proof.
+  induction l as [|x l IH]; cbn [map In]; intros a b Hnd Ha Hb He; [contradiction|].
+  inversion Hnd as [|? ? Hn Hd]; subst. destruct Ha as [->|Ha], Hb as [->|Hb]; auto.
+  - exfalso; apply Hn. rewrite He. apply in_map; auto.
+  - exfalso; apply Hn. rewrite <- He. apply in_map; auto.
+Qed.
+
+Lemma rupdate_same : forall R d, NoDup (map d_net R) -> In d R ->
+  rupdate (d_net d) (d_paths d) R = R.
+Proof.
+  induction R as [|x R IH]; cbn [rupdate map In]; intros d Hnd Hin; auto.
+  inversion Hnd as [|? ? Hn Hd]; subst. destruct Hin as [->|Hin].
+  - rewrite N.eqb_refl. destruct d; reflexivity.
+  - destruct (d_net x =? d_net d) eqn:Hx.
+    + apply N.eqb_eq in Hx. exfalso; apply Hn. rewrite Hx. apply in_map; auto.
+    + now rewrite IH.
+Qed.
+
+Lemma emit_snap : forall R d, wf R -> In d R -> emit R (snapc d) R.
+Proof.
+  intros R d [H1 [H2 H3]] Hd.
+  pose proof (emit_set R (d_net d) true true None (d_paths d)) as He.
+  unfold rset in He. rewrite (rfind_In R d H1 Hd) in He. cbn [fst snd] in He.
+  rewrite rupdate_same in He by auto. apply He.
+  cbn [truthful]. unfold old_paths. rewrite (rfind_In R d H1 Hd).
+  split; [discriminate|]. split; [discriminate|]. split; [auto|].
+  intros p q Hp Hq Hpq. left. eapply NoDup_map_inj; eauto.
+Qed.
+
+Lemma refresh_ok : forall R (ds : list dest) (em : emap) p base,
+  wf R -> (forall d, In d ds -> In d R) ->
+  emap_ok R em -> pend_ok R p base -> coherent E p ->
+  exists p', snd (fold_left (fun a c => PC c a)
+                            (filter_map (fun d => match d_paths d with [] => None | _ => Some (snapc d) end) ds)
+                            (em, SPtx E p)) = SPtx E p' /\
+             emap_ok R (fst (fold_left (fun a c => PC c a)
+                            (filter_map (fun d => match d_paths d with [] => None | _ => Some (snapc d) end) ds)
+                            (em, SPtx E p))) /\
+             pend_ok R p' base /\ coherent E p'.
+Proof.
+  intros R. induction ds as [|d ds IH]; intros em p base Hwf Hsub He Hp Hc; cbn [filter_map fold_left].
+  - exists p; auto.
+  - destruct (d_paths d) eqn:Hdp.
+    + apply IH; auto. intros; apply Hsub; right; auto.
+    + cbn [fold_left].
+      destruct (deliver_ok R (snapc d) R em p base Hwf) as [p1 [Hs [_ [He1 [Hp1 Hc1]]]]]; auto.
+      { apply emit_snap; auto. apply Hsub; left; auto. }
+      remember (PC (snapc d) (em, SPtx E p)) as st eqn:Hst. destruct st as [em1 sk1].
+      cbn [fst snd] in Hs, He1. subst sk1.
+      apply IH; auto. intros; apply Hsub; right; auto.
+Qed.
+
+Lemma step_inv : forall s l,
+  Inv s -> ok_label E s l -> Inv (STEP s l).
+Proof.
+  intros [R fl n] l [Hwf [Hfl Hn]] [Htr [Hnl Hnr]]. cbn [s_rib s_llgr s_nbr] in *. subst fl.
+  destruct l as [net bc ac repl paths | net | net emit_ | src b | | | | ]; cbn [step s_rib s_llgr s_nbr].
+  - (* RibSet *)
+    pose proof (emit_set R net bc ac repl paths Htr) as He. unfold mkc in He.
+    destruct (rset net paths R) as [R' i] eqn:Hrs. cbn [fst snd] in He.
+    split; [|split]; cbn [s_rib s_llgr s_nbr]; auto.
+    + eapply emit_wf; eauto.
+    + rewrite push_reg. intros Hr. apply (nbr_ok_emit R _ R' n); auto.
+  - (* RibTouch *)
+    destruct (rfind net R) eqn:Hf; cbn [s_rib s_llgr s_nbr].
+    + split; [|split]; auto.
+    + pose proof (silent_touch R net Hf) as Hs.
+      split; [|split]; cbn [s_rib s_llgr s_nbr]; auto.
+      * apply wf_rset; auto. constructor.
+      * intros Hr. eapply nbr_ok_silent; eauto.
+  - (* RibFree *)
+    destruct (rfind net R) as [d|] eqn:Hf; cbn [s_rib s_llgr s_nbr].
+    + destruct emit_.
+      * pose proof (emit_free R net d Hf) as He. unfold mkc in He.
+        split; [|split]; cbn [s_rib s_llgr s_nbr]; auto.
+        -- apply wf_rfree; auto.
+        -- rewrite push_reg. intros Hr. apply (nbr_ok_emit R _ (rfree net R) n); auto.
+      * cbn [truthful] in Htr. pose proof (silent_free R net Htr) as Hs.
+        split; [|split]; cbn [s_rib s_llgr s_nbr]; auto.
+        -- apply wf_rfree; auto.
+        -- intros Hr. eapply nbr_ok_silent; eauto.
+    + split; [|split]; auto.
+  - (* LlgrFlip *)
+    destruct b.
+    + exfalso. apply Hnl. exists src; reflexivity.
+    + split; [|split]; cbn [s_rib s_llgr s_nbr filter]; auto.
+  - (* Deliver *)
+    destruct (n_chan n) as [|c rest] eqn:Hch.
+    + split; [|split]; auto.
+    + unfold with_nbr. split; [|split]; cbn [s_rib s_llgr s_nbr n_reg]; auto.
+      intros Hr. destruct (Hn Hr) as [L [H1 [H2 [H3 [H4 H5]]]]]. rewrite Hch in H2.
+      destruct (chain_cons_inv L c rest R (n_emap n) (n_ptx n) (basef n) H2 H1 H3 H4)
+        as [L1 [L2 [G1 [G2 [G3 [G4 G5]]]]]].
+      destruct (deliver_ok L1 c L2 (n_emap n) (n_ptx n) (basef n) G1 G4 G2 G3 H5)
+        as [p' [Hs [Hw2 [He2 [Hp2 Hc2]]]]].
+      exists L2. cbn [n_chan n_emap n_ptx]. rewrite Hs. cbn [sink_ptx].
+      split; [|split; [|split; [|split]]]; auto.
+  - (* Flush *)
+    unfold with_nbr. split; [|split]; cbn [s_rib s_llgr s_nbr n_reg]; auto.
+    intros Hr. destruct (Hn Hr) as [L [H1 [H2 [H3 [H4 H5]]]]].
+    exists L. cbn [n_chan n_emap n_ptx]. split; [|split; [|split; [|split]]]; auto.
+    + intros k. unfold T. rewrite pview_empty. unfold basef. cbn [n_buf n_mirror].
+      unfold mirror_reach at 1. cbn [fold_left]. rewrite flush_lookup by auto. apply H4.
+    + apply coherent_empty.
+  - (* Register *)
+    unfold with_nbr. split; [|split]; cbn [s_rib s_llgr s_nbr n_reg]; auto.
+    intros _. destruct (dump_ok R Hwf) as [D1 D2].
+    exists R. cbn [n_chan n_emap n_ptx]. split; [|split; [|split; [|split]]]; auto.
+    + constructor.
+    + apply coherent_empty.
+  - (* Refresh *)
+    destruct (n_reg n) eqn:Hr; [|split; [|split]; cbn [s_rib s_llgr s_nbr]; auto; congruence].
+    unfold with_nbr. split; [|split]; cbn [s_rib s_llgr s_nbr n_reg]; auto.
+    intros _. destruct (Hn eq_refl) as [L [H1 [H2 [H3 [H4 H5]]]]].
+    assert (Hch : n_chan n = []).
+    { destruct (n_chan n) eqn:Hc; auto. exfalso. apply Hnr. split; auto. cbn [s_nbr]. rewrite Hc. discriminate. }
+    rewrite Hch in H2.
+    destruct (chain_nil_transfer L R (n_emap n) (n_ptx n) (basef n) H2 H1 H3 H4) as [G1 [G2 G3]].
+    rewrite snapshot_unlimited.
+    destruct (refresh_ok R R (n_emap n) (n_ptx n) (basef n) Hwf (fun d H => H) G2 G3 H5)
+      as [p' [Hs [He2 [Hp2 Hc2]]]].
+    exists R. cbn [n_chan n_emap n_ptx]. rewrite Hch, Hs. cbn [sink_ptx].
+    split; [|split; [|split; [|split]]]; auto. constructor.
+Qed.
